@@ -33,8 +33,6 @@ open Lean
 
 namespace Biom.C07
 
-/-- heap locations are natural numbers (index into the store of their kind) -/
-abbrev Loc := Nat
 
 inductive Fmt where
   | csr | csc
@@ -475,5 +473,282 @@ def okRun (h : Heap γ) : List (Op γ × List (Body γ)) → Bool
   | (op, poke) :: rest => okCall h op && okRun (obsOp h op poke).2 rest
 
 end model
+
+
+/-! ### JSON glue and the driver (untrusted for the theorems) -/
+open Codec
+
+abbrev G := List (List Rat)
+
+def contentOfTable (t : Table Rat) : Content G :=
+  { obs := t.obs, samp := t.samp, mat := t.rows, omd := t.omd, smd := t.smd, ttype := t.ttype }
+
+def asContent (j : Json) : R (Content G) := do pure (contentOfTable (← asTable j))
+
+def contentToJson (c : Content G) : Json :=
+  tableToJson { obs := c.obs, samp := c.samp, rows := c.mat, omd := c.omd, smd := c.smd, ttype := c.ttype }
+
+/-- what `_remove_rows_csr` leaves of the dense content -/
+def filterGrid (ax : Axis) (mask : List Bool) (g : G) : G :=
+  match ax with
+  | .obs => filterMask g mask
+  | .samp => g.map (fun r => filterMask r mask)
+
+def mdInsert (k v : String) : Md → Md
+  | [] => [(k, v)]
+  | (k', v') :: r =>
+    match compare k k' with
+    | .lt => (k, v) :: (k', v') :: r
+    | .eq => (k, v) :: r
+    | .gt => (k', v') :: mdInsert k v r
+
+/-- `dict.update(e)` on canonical (key-sorted) entries -/
+def mdUpdate (e : Md) (old : Md) : Md := e.foldl (fun acc kv => mdInsert kv.1 kv.2 acc) old
+/-- `for k in keys: if k in md: del md[k]` -/
+def mdErase (keys : List String) (old : Md) : Md := old.filter (fun kv => !keys.contains kv.1)
+
+structure CallJ where
+  name : String
+  args : Json
+  raised : Bool
+  inplace : Bool
+  recv : Nat
+  results : List Nat
+  resultContents : List (Content G)
+  ref : Option (Content G)
+  after : List (Content G)
+  extIds : List (List Id)
+  extOther : List (List String)
+  facts : Json
+  poke : Nat
+
+def asCallJ (j : Json) : R CallJ := do
+  pure { name := (← strF j "name"), args := (optFld j "args").getD Json.null,
+         raised := (← boolFD j "raised" false), inplace := (← boolFD j "inplace" false),
+         recv := (← natFD j "recv" 0), results := (← listF asNat j "results"),
+         resultContents := (← listF asContent j "result_contents"),
+         ref := (← optF asContent j "ref"), after := (← listF asContent j "after"),
+         extIds := (← listF (asList asStr) j "ext_ids"), extOther := (← listF (asList asStr) j "ext_other"),
+         facts := (← fld j "facts"), poke := (← natFD j "poke" 0) }
+
+def filterBody (cur : Content G) (ax : Axis) (newIds : List Id) (gOverride : Option G) : Body G :=
+  let mask := (cur.ids ax).map (fun i => newIds.contains i)
+  .filter ax (match gOverride with | some g => (fun _ => g) | none => filterGrid ax mask) newIds mask
+
+def asIdSrc (ext : List Nat) (j : Json) : R IdSrc := do
+  match (← strF j "kind") with
+  | "list" => pure .fresh
+  | "ext" => match ext[(← natF j "j")]? with
+    | some l => pure (.ofLoc l)
+    | none => .error "unknown ext array"
+  | "table" => pure (.ofTable (← natF j "i") (← axisF j "axis"))
+  | s => .error s!"bad id source {s}"
+
+def setEq (a b : List Id) : Bool := a.all (b.contains ·) && b.all (a.contains ·)
+
+/-- the bodies of an operation that has an `inplace` flag, against the current content of its target -/
+def bodiesOf (cur : Content G) (name : String) (a : Json) : R (List (Body G)) := do
+  match name with
+  | "filter" => pure [filterBody cur (← axisF a "axis") (← listF asStr a "ids") none]
+  | "transform" | "norm" | "pa" | "rankdata" =>
+    let rows ← listF (asList asRat) a "rows"
+    pure [.transform (← axisF a "axis") (fun _ => rows)]
+  | "remove_empty" =>
+    let stages ← listF (fun st => do pure ((← axisF st "axis"), (← listF asStr st "ids"))) a "stages"
+    pure (stages.map (fun st => filterBody cur st.1 st.2 none))
+  | "update_ids" => pure [.updateIds (← axisF a "axis") (← listF asStr a "ids")]
+  | "add_metadata" =>
+    let ups ← listF (asOpt asMd) a "ups"
+    pure [.addMd (← axisF a "axis") (ups.map (fun u => u.map mdUpdate))]
+  | "del_metadata" =>
+    let axes ← listF asAxis a "axes"
+    let keys ← optF (asList asStr) a "keys"
+    pure (axes.map (fun ax => .delMd ax (keys.map mdErase)))
+  | s => .error s!"no bodies for {s}"
+
+def inplaceNames : List String :=
+  ["filter", "transform", "norm", "pa", "rankdata", "remove_empty", "update_ids", "add_metadata", "del_metadata"]
+
+/-- the model's operations for one call of the real API -/
+def mkOps (h : Heap G) (ext : List Nat) (c : CallJ) : R (List (Op G)) := do
+  if c.raised then return []
+  let a := c.args
+  let res0 : R (Content G) := match c.resultContents.head? with
+    | some x => pure x
+    | none => .error s!"{c.name}: no result content"
+  let cur : R (Content G) := match h.abs c.recv with
+    | some x => pure x
+    | none => .error s!"{c.name}: unknown receiver {c.recv}"
+  if inplaceNames.contains c.name then
+    let bs ← bodiesOf (← cur) c.name a
+    return [if c.inplace then .inplace c.recv bs else Op.copyThen c.recv bs]
+  match c.name with
+  | "ext_ids" => pure [.extIds (← listF asStr a "ids")]
+  | "construct" =>
+    let r ← res0
+    pure [.new [] (fun _ => r) (← asIdSrc ext (← fld a "obs_src")) (← asIdSrc ext (← fld a "samp_src")) []]
+  | "copy" => pure [Op.copy c.recv]
+  | "transpose" => let r ← res0; pure [Op.transpose c.recv (fun _ => r)]
+  | "sort" => let r ← res0; pure [Op.sort c.recv (← axisF a "axis") (fun _ => r)]
+  | "sort_order" =>
+    let r ← res0
+    pure [Op.sortOrder c.recv (← axisF a "axis") (← asIdSrc ext (← fld a "order")) (fun _ => r)]
+  | "head" =>
+    let r ← res0
+    let cu ← cur
+    pure [Op.head c.recv (filterBody cu .obs r.obs none) (filterBody cu .samp r.samp none)]
+  | "subsample" =>
+    let r ← res0
+    let cu ← cur
+    let ax ← axisF a "axis"
+    let kernel : List (Body G) := if (← boolF a "by_id") then [] else [.transform ax (fun _ => r.mat)]
+    pure [Op.subsample c.recv (kernel ++ [filterBody cu ax (r.ids ax) (some r.mat),
+                                         filterBody cu ax.other (r.ids ax.other) (some r.mat)])]
+  | "partition" =>
+    let ax ← axisF a "axis"
+    let re ← boolF a "remove_empty"
+    pure (c.resultContents.map (fun r =>
+      Op.partition c.recv ax (fun _ => r)
+        (if re then [filterBody r .samp r.samp none, filterBody r .obs r.obs none] else [])))
+  | "collapse" => let r ← res0; pure [Op.collapse c.recv (← axisF a "axis") (fun _ => r)]
+  | "merge" | "concat" => let r ← res0; pure [Op.combine c.recv (← listF asNat a "others") (fun _ => r)]
+  | "align_to" =>
+    let r ← res0
+    let cu ← cur
+    let o ← natF a "other"
+    let oc ← match h.abs o with | some x => pure x | none => .error "align_to: unknown other"
+    let axis ← strF a "axis"
+    let so := setEq cu.obs oc.obs
+    let ss := setEq cu.samp oc.samp
+    let (ao, as) := match axis with
+      | "both" => (true, true)
+      | "sample" => (false, true)
+      | "observation" => (true, false)
+      | _ => (so, ss)
+    pure [Op.alignTo c.recv o ao as (fun _ => r)]
+  | s => .error s!"unknown operation {s}"
+
+/-! predicted aliasing facts -/
+
+def pairsOf {α : Type} (l : List α) : List (α × α) :=
+  match l with
+  | [] => []
+  | x :: r => r.map (fun y => (x, y)) ++ pairsOf r
+
+def idOwners (h : Heap G) (ext : List Nat) : List (String × Nat) :=
+  (h.objs.zipIdx.flatMap (fun (o, i) => [(s!"t{i}.o", o.obsIds), (s!"t{i}.s", o.sampIds)])) ++
+  ext.zipIdx.map (fun (l, j) => (s!"e{j}", l))
+
+def predIdShare (h : Heap G) (ext : List Nat) (unknown : List String) : List (String × String) :=
+  ((pairsOf (idOwners h ext)).filter (fun (a, b) => a.2 == b.2 && !unknown.contains a.1 && !unknown.contains b.1)).map
+    (fun (a, b) => (a.1, b.1))
+
+def predMatShare (h : Heap G) : List (Nat × Nat) :=
+  ((pairsOf h.objs.zipIdx).filter (fun (a, b) => a.1.mat == b.1.mat)).map (fun (a, b) => (a.2, b.2))
+
+def predDictShare (h : Heap G) : List (Nat × Nat) :=
+  ((pairsOf h.objs.zipIdx).filter (fun (a, b) => a.1.dlocs.any (b.1.dlocs.contains ·))).map (fun (a, b) => (a.2, b.2))
+
+def hasDup : List Nat → Bool
+  | [] => false
+  | x :: r => r.contains x || hasDup r
+
+def predDictDup (h : Heap G) : List Nat :=
+  (h.objs.zipIdx.filter (fun (o, _) => hasDup o.dlocs)).map (·.2)
+
+def predKept (h0 h1 : Heap G) : List Nat :=
+  (h0.objs.zipIdx.filter (fun (o, i) => (h1.objs[i]?.map (·.mat)) == some o.mat)).map (·.2)
+
+def Fmt.name : Fmt → String
+  | .csr => "csr"
+  | .csc => "csc"
+
+def sameSet {α : Type} [BEq α] (a b : List α) : Bool := a.all (b.contains ·) && b.all (a.contains ·)
+
+def asPairN (j : Json) : R (Nat × Nat) := do
+  match (← asArr j) with
+  | [a, b] => pure ((← asNat a), (← asNat b))
+  | _ => .error "pair"
+
+def asPairS (j : Json) : R (String × String) := do
+  match (← asArr j) with
+  | [a, b] => pure ((← asStr a), (← asStr b))
+  | _ => .error "pair"
+
+def symS (l : List (String × String)) : List (String × String) := l ++ l.map (fun p => (p.2, p.1))
+
+/-- compare the model heap with what was observed after a call; `none` = agreement -/
+def compareFacts (h0 h1 : Heap G) (ext : List Nat) (c : CallJ) : R (Option String) := do
+  let f := c.facts
+  let fmts ← listF asStr f "fmt"
+  let matShare ← listF asPairN f "mat_share"
+  let idShare ← listF asPairS f "id_share"
+  let idUnknown ← listF asStr f "id_unknown"
+  let dictShare ← listF asPairN f "dict_share"
+  let dictDup ← listF asNat f "dict_dup"
+  let kept ← listF asNat f "kept"
+  let modelContents := snaps h1
+  if modelContents.length != c.after.length then
+    return some s!"live tables: model {modelContents.length} vs {c.after.length}"
+  match (modelContents.zip c.after).zipIdx.find? (fun (p, _) => p.1 != p.2) with
+  | some (p, i) => return some s!"content of table {i}: model {(contentToJson p.1).compress} vs observed {(contentToJson p.2).compress}"
+  | none => pure ()
+  let mExt := ext.map h1.idArr
+  if mExt != c.extIds then return some "caller-held ID arrays differ"
+  if h1.objs.map (·.fmt.name) != fmts then return some s!"layouts: model {h1.objs.map (·.fmt.name)} vs {fmts}"
+  if !sameSet (predMatShare h1) matShare then return some s!"matrix sharing: model {predMatShare h1} vs {matShare}"
+  if !sameSet (symS (predIdShare h1 ext idUnknown)) (symS idShare) then
+    return some s!"ID array sharing: model {predIdShare h1 ext idUnknown} vs {idShare}"
+  if !sameSet (predDictShare h1) dictShare then return some s!"dict sharing: model {predDictShare h1} vs {dictShare}"
+  if !sameSet (predDictDup h1) dictDup then return some s!"duplicate dicts: model {predDictDup h1} vs {dictDup}"
+  if !sameSet (predKept h0 h1) kept then return some s!"buffers kept: model {predKept h0 h1} vs {kept}"
+  return none
+
+structure RunState where
+  h : Heap G
+  ext : List Nat
+  prevAfter : List (Content G)
+  prevExt : List (List Id)
+  k : Nat
+  verdict : Verdict
+  diff : Option String
+  modelHolds : Bool
+
+def extAll (c : CallJ) : List (List Id) := c.extIds ++ c.extOther
+
+def stepCall (calls : Array CallJ) (st : RunState) (c : CallJ) : R RunState := do
+  let ops ← mkOps st.h st.ext c
+  let h1 := runOps st.h ops
+  let ext1 := if c.name == "ext_ids" && !c.raised then st.ext ++ [st.h.ids.length] else st.ext
+  let n := st.prevAfter.length
+  let later := calls[st.k + c.poke]?
+  let obs : CallObs G :=
+    { inplace := c.inplace, raised := c.raised, recv := c.recv, before := st.prevAfter,
+      after := c.after.take n, resultIds := c.results, results := c.resultContents, reference := c.ref,
+      afterPoke := match later with | some l => l.after.take n | none => [],
+      extBefore := st.prevExt, extAfter := (extAll c).take st.prevExt.length,
+      extAfterPoke := match later with | some l => (extAll l).take st.prevExt.length | none => [] }
+  let v := (holdsV obs).map (fun cl => s!"{st.k}:{c.name}:{cl}")
+  let d ← compareFacts st.h h1 ext1 c
+  let d := d.map (fun x => s!"{st.k}:{c.name}: {x}")
+  -- the model's own observation of the same call satisfies the predicate (cf. model_holds_partial)
+  let mh := ops.all (fun op => holds (obsOp st.h op []).1 || !(okCall st.h op))
+  pure { h := h1, ext := ext1, prevAfter := c.after, prevExt := extAll c, k := st.k + 1,
+         verdict := st.verdict.and v, diff := match st.diff with | some x => some x | none => d,
+         modelHolds := st.modelHolds && mh }
+
+/-- request: {"calls":[…]} → {"holds", "clause", "agree", "diff", "model_holds", "model"} -/
+def handle (req : Json) : R Json := do
+  let calls ← listF asCallJ req "calls"
+  let arr := calls.toArray
+  let st0 : RunState := { h := Heap.empty, ext := [], prevAfter := [], prevExt := [], k := 0,
+                          verdict := none, diff := none, modelHolds := true }
+  let st ← calls.foldlM (stepCall arr) st0
+  pure (Json.mkObj (verdictToJson st.verdict ++
+    [("agree", .bool st.diff.isNone), ("diff", optToJson Json.str st.diff),
+     ("model_holds", .bool st.modelHolds),
+     ("model", Json.mkObj [("tables", toJson st.h.objs.length), ("mats", toJson st.h.mats.length),
+                           ("id_arrays", toJson st.h.ids.length), ("dicts", toJson st.h.dicts.length),
+                           ("fmt", strsToJson (st.h.objs.map (·.fmt.name)))])]))
 
 end Biom.C07
